@@ -264,66 +264,172 @@ def rule_entry(ctx):
   src = norm(f.node.body[-1])
   okF = src in ("return any((state == State.FAILED for state in self.state.values()))", "return any(state == State.FAILED for state in self.state.values())")
   ctx.record(R, f.where, "Failed <=> some state is FAILED", okF, "any(state == FAILED)" if okF else "Failed is `%s`" % src)
-  # ---- TestSource
+  # ---- TestSource / TestBitString: read from the walker (list built by an append loop or a comprehension, `continue` or nested `if`, any names)
+  TESTS = P("ref", MOD + ".TESTS")
+
+  def structures(w):
+    """[(args, kwargs)] of every TestStructure(...) construction, and whether the list they go into is drawn from TESTS."""
+    out = []
+    for e in w.events:
+      if e.kind == "call" and e.data["name"].endswith("TestStructure"):
+        out.append(([as_poly(a) for a in e.data["args"]], {k_: as_poly(v_) for k_, v_ in e.data["kwargs"].items()}, e))
+    return out
+
+  def from_tests(w, T_):
+    """Is the list T_ built from the TESTS registry (exit value of a loop over TESTS, or a comprehension over it)?"""
+    a = T_.as_atom()
+    if a is None:
+      return False
+    if a.kind == "map":
+      return "TESTS" in repr(a.args[2])
+    for info in w.loop_info.values():
+      for vis in info["visits"]:
+        if any(sv is not None and not isinstance(sv, (Seq, Const, tuple)) and as_poly(sv) == T_ for sv in vis["after_env"].values()):
+          if not isinstance(vis["iter"], Seq) and vis["iter"] is not None and as_poly(vis["iter"]) == TESTS:
+            return True
+    return False
+
+  def result_lists(w):
+    """T for every `return any(x.Failed() for x in T)`; None entries for other non-None returns."""
+    out = []
+    for kind, val, s_ in w.terminals:
+      if kind != "return" or (isinstance(val, Const) and val.v is None):
+        continue
+      T_ = None
+      if not isinstance(val, (Seq, Const, tuple)):
+        a = as_poly(val).as_atom()
+        if a is not None and a.kind == "any":
+          m_ = as_poly(a.args[0]).as_atom()
+          if m_ is not None and m_.kind == "map":
+            elt, bv, src = m_.args
+            bvp = Poly.atom(bv) if not isinstance(bv, Poly) else bv
+            if as_poly(elt) == sym.mk("mcall", sym.mk("idx", as_poly(src), bvp), P("lit", "Failed")):
+              T_ = as_poly(src)
+      out.append((T_, s_))
+    return out
+
   f = repo.func(MOD, "TestSource")
   w = sym.Walker(repo, f)
   w.run()
   probs = []
-  fn = f.node
-  whiles = [n for n in ast.walk(fn) if isinstance(n, ast.While)]
-  if len(whiles) != 1 or norm(whiles[0].test) != "undecided":
-    probs.append("repeat loop is not `while undecided`")
+  n_, fail_, rep_, minrep = [P("param", x) for x in ("n", "significance_level_fail", "significance_level_repeat", "min_repetitions")]
+  st = structures(w)
+  if not st:
+    probs.append("no TestStructure is built")
+  for args, kw, e in st:
+    k_ = None
+    ok_a = len(args) >= 4 and args[2] == fail_ and args[3] == rep_ and kw.get("min_repetitions", args[4] if len(args) > 4 else None) == minrep
+    t0 = args[0].as_atom() if args else None
+    ok_t = t0 is not None and t0.kind == "idx" and as_poly(t0.args[1]).as_int() == 0 and len(args) > 1 and args[1] == sym.mk("idx", t0.args[0], Poly.const(1)) and "TESTS" in repr(t0.args[0])
+    if not ok_a:
+      probs.append("TestStructure is not built with (fail level, repeat level, min_repetitions) in this order")
+    if not ok_t:
+      probs.append("TestStructure is not built from one (function, parameters) entry of TESTS")
+  res = result_lists(w)
+  if not res or any(T_ is None or not from_tests(w, T_) for T_, s_ in res):
+    probs.append("result is not any(test.Failed() for test in tests) over the structures built from TESTS")
+  whiles = [i_ for i_ in w.loop_info.values() if isinstance(i_["node"], ast.While) and i_["visits"]]
+  if len(whiles) != 1:
+    probs.append("expected one repeat loop")
   else:
     wl = whiles[0]
-    body = [norm(s) for s in wl.body]
-    if "bits = source(n)" not in body:
-      probs.append("fresh bits are not drawn per round")
-    if "undecided = 0" not in body:
-      probs.append("undecided is not reset per round")
-    inner = [n for n in wl.body if isinstance(n, ast.For)]
-    if len(inner) != 1 or ast.unparse(inner[0].iter) != "tests":
-      probs.append("a round does not iterate all tests")
+    und = None
+    for vis in wl["visits"]:
+      hf = vis["head"].facts[len(vis["pre"].facts):]
+      tr = [fc for fc in hf if fc[0] == "truthy" and not isinstance(fc[1], Seq)] + [("truthy", fc[2]) for fc in hf if fc[0] == "cmp" and fc[1] in ("NotEq", "Gt") and not isinstance(fc[2], Seq) and as_poly(fc[3]).is_zero()]
+      names = [nm for nm, v_ in vis["head"].env.items() if tr and not isinstance(v_, (Seq, Const, tuple)) and v_ is not None and as_poly(v_) == as_poly(tr[0][1])]
+      if len(tr) == 1 and names:
+        und = names[0]
+    if und is None:
+      probs.append("repeat loop is not `while <count of unfinished tests>`")
     else:
-      txt = ast.unparse(inner[0])
-      if "if test_struct.finished:\n        continue" not in txt and "if test_struct.finished:\n    continue" not in txt:
-        probs.append("finished tests are not skipped")
-      if "if test_struct.Run(bits, n):" not in txt or "undecided += 1" not in txt:
-        probs.append("unfinished tests are not counted as undecided")
-      if any(isinstance(x, (ast.Break, ast.Return)) for x in ast.walk(inner[0])):
-        probs.append("round loop can exit early")
-  rets = [e for e in w.events if e.kind == "return" and e.node is not None and e.node.value is not None]
-  if not rets or not all(norm(e.node) in ("return any((test.Failed() for test in tests))", "return any(test.Failed() for test in tests)") for e in rets):
-    probs.append("result is not any(test.Failed() for test in tests)")
-  build = [n for n in ast.walk(fn) if isinstance(n, ast.For) and ast.unparse(n.iter) == "TESTS"]
-  if len(build) != 1:
-    probs.append("test structures are not built from the full TESTS list")
-  else:
-    txt = ast.unparse(build[0])
-    if "TestStructure(test, params, significance_level_fail, significance_level_repeat, min_repetitions=min_repetitions)" not in txt:
-      probs.append("TestStructure is not built with (fail level, repeat level, min_repetitions) in this order")
+      inner = [i_ for i_ in w.loop_info.values() if isinstance(i_["node"], ast.For) and any(x is i_["node"] for x in ast.walk(wl["node"]))]
+      if len(inner) != 1:
+        probs.append("a round does not iterate all tests in one loop")
+      else:
+        il = inner[0]
+        for vis in il["visits"]:
+          T_ = None if isinstance(vis["iter"], Seq) or vis["iter"] is None else as_poly(vis["iter"])
+          if T_ is None or not from_tests(w, T_):
+            probs.append("a round does not iterate the structures built from TESTS")
+          pre_u = vis["pre_env"].get(und)
+          if not (isinstance(pre_u, (Const, Poly)) and as_poly(pre_u).is_zero()):
+            probs.append("the count of unfinished tests is not reset to 0 at the start of a round")
+        for kind, val, s_, since, vis in il["body_paths"]:
+          if kind not in ("fall", "continue"):
+            probs.append("round loop can exit early")
+            continue
+          if isinstance(vis["iter"], Seq) or vis["iter"] is None:
+            continue
+          elt = sym.mk("idx", as_poly(vis["iter"]), as_poly(vis["k"]))
+          newf = s_.facts[len(vis["head"].facts):]
+          fin = [fc[0] for fc in newf if fc[0] in ("truthy", "falsy") and not isinstance(fc[1], Seq) and as_poly(fc[1]) == sym.mk("attr", elt, "finished")]
+          runs = [(fc[0], as_poly(fc[1]).as_atom()) for fc in newf if fc[0] in ("truthy", "falsy") and not isinstance(fc[1], Seq) and as_poly(fc[1]).as_atom() is not None
+                  and as_poly(fc[1]).as_atom().kind == "mcall" and as_poly(fc[1]).as_atom().args[0] == elt and as_poly(fc[1]).as_atom().args[1] == P("lit", "Run")]
+          du = as_poly(s_.env[und]) - as_poly(vis["head"].env[und])
+          if fin == ["truthy"]:
+            if runs or not du.is_zero():
+              probs.append("finished tests are not skipped")
+          elif fin == ["falsy"]:
+            if len(runs) != 1:
+              probs.append("an unfinished test is not run exactly once per round")
+              continue
+            pol, ra = runs[0]
+            bits_v = as_poly(ra.args[2]).as_atom() if len(ra.args) >= 4 else None
+            if bits_v is None or bits_v.kind != "lcall" or bits_v.args[0] != P("lit", "source") or as_poly(bits_v.args[1]) != n_ or as_poly(ra.args[3]) != n_:
+              probs.append("Run is not called with fresh bits = source(n) and n")
+            if (pol == "truthy" and not du.is_zero()) or (pol == "falsy" and not (du - 1).is_zero()):
+              probs.append("unfinished tests are not counted as undecided exactly when Run reports not finished")
+          else:
+            probs.append("a pass of the round loop does not test `finished`")
+      # fresh bits once per round
+      for kind, val, s_, since, vis in wl["body_paths"]:
+        if kind != "fall":
+          probs.append("repeat loop left by %s" % kind)
   d1 = f.default_of("significance_level_fail")
   d2 = f.default_of("significance_level_repeat")
   if fold.try_fold(d1) != 1e-9 or fold.try_fold(d2) != 0.01:
     probs.append("default levels are not (repeat 0.01, fail 1e-9)")
-  ctx.record(R, f.where, "repeat while some test is unfinished; True iff some sub-test failed", not probs, "; ".join(probs) or "loop structure and result as specified")
+  ctx.record(R, f.where, "repeat while some test is unfinished; True iff some sub-test failed", not probs, "; ".join(sorted(set(probs))) or "loop structure and result as specified")
   # ---- TestBitString
   f = repo.func(MOD, "TestBitString")
-  fn = f.node
+  w = sym.Walker(repo, f)
+  w.run()
   probs = []
-  build = [n for n in ast.walk(fn) if isinstance(n, ast.For) and ast.unparse(n.iter) == "TESTS"]
-  if len(build) != 1 or "TestStructure(test, params, significance_level, significance_level)" not in ast.unparse(build[0]):
-    probs.append("fail and repeat level are not the same significance level")
-  runl = [n for n in ast.walk(fn) if isinstance(n, ast.For) and ast.unparse(n.iter) == "tests"]
-  if len(runl) != 1 or "test_struct.Run(bits, n)" not in ast.unparse(runl[0]) or any(isinstance(x, (ast.Break, ast.Return, ast.Continue)) for x in ast.walk(runl[0])):
-    probs.append("every test is not run exactly once")
-  if any(isinstance(n, ast.While) for n in ast.walk(fn)):
+  bits_, lvl = P("param", "bits"), P("param", "significance_level")
+  st = structures(w)
+  if not st:
+    probs.append("no TestStructure is built")
+  for args, kw, e in st:
+    if not (len(args) >= 4 and args[2] == lvl and args[3] == lvl):
+      probs.append("fail and repeat level are not the same significance level")
+    t0 = args[0].as_atom() if args else None
+    if not (t0 is not None and t0.kind == "idx" and as_poly(t0.args[1]).as_int() == 0 and len(args) > 1 and args[1] == sym.mk("idx", t0.args[0], Poly.const(1)) and "TESTS" in repr(t0.args[0])):
+      probs.append("TestStructure is not built from one (function, parameters) entry of TESTS")
+  res = result_lists(w)
+  if not res or any(T_ is None or not from_tests(w, T_) for T_, s_ in res):
+    probs.append("result is not any(test.Failed() for test in tests) over the structures built from TESTS")
+  if any(isinstance(i_["node"], ast.While) for i_ in w.loop_info.values()):
     probs.append("unexpected repetition loop")
-  last = [s for s in fn.body if isinstance(s, ast.Return)]
-  if not last or norm(last[-1]) not in ("return any((test.Failed() for test in tests))", "return any(test.Failed() for test in tests)"):
-    probs.append("result is not any(test.Failed() for test in tests)")
+  runl = []
+  for i_ in w.loop_info.values():
+    for vis in i_["visits"]:
+      if isinstance(vis["iter"], Seq) or vis["iter"] is None or not from_tests(w, as_poly(vis["iter"])):
+        continue
+      runl.append(i_)
+      elt = sym.mk("idx", as_poly(vis["iter"]), as_poly(vis["k"]))
+      for kind, val, s_, since, v2 in i_["body_paths"]:
+        if v2 is not vis:
+          continue
+        evs = [w.events[x] for x in s_.trace if x >= since]
+        rc = [e for e in evs if e.kind == "call" and e.data["name"] == "meth:Run" and as_poly(e.data["recv"]) == elt]
+        if kind != "fall" or len(rc) != 1 or [as_poly(a) for a in rc[0].data["args"]] != [bits_, n_]:
+          probs.append("every test is not run exactly once on (bits, n)")
+  if not runl:
+    probs.append("every test is not run exactly once on (bits, n)")
   if fold.try_fold(f.default_of("significance_level")) != 1e-9:
     probs.append("default level is not 1e-9")
-  ctx.record(R, f.where, "each test once with fail = repeat level; True iff some sub-test failed", not probs, "; ".join(probs) or "single pass")
+  ctx.record(R, f.where, "each test once with fail = repeat level; True iff some sub-test failed", not probs, "; ".join(sorted(set(probs))) or "single pass")
 
 
 def rule_fisher(ctx):
